@@ -229,6 +229,21 @@ def gen_registry(repo):
             return "SGatherFlush"
         if t == "awaitasyncio.shield(self._aclose_runners(runner_tasks))":
             return "SShieldAclose"
+        if t == "awaitself._close_runners(runner_tasks)":
+            # the shielded close, repeated until it is through (a further cancellation of the caller does not abort it)
+            helper = find_function(tree, "_close_runners", cls="MetaRunner")
+            body = [b for b in helper.body if not is_doc(b)]
+            ok = (len(body) == 2 and src(body[0]) == "closing=asyncio.ensure_future(self._aclose_runners(runner_tasks))"
+                  and isinstance(body[1], ast.While) and src(body[1].test) == "notclosing.done()" and not body[1].orelse
+                  and len(body[1].body) == 1 and isinstance(body[1].body[0], ast.Try))
+            if ok:
+                tr = body[1].body[0]
+                ok = (len(tr.body) == 1 and src(tr.body[0]) == "awaitasyncio.shield(closing)" and len(tr.handlers) == 1
+                      and src(tr.handlers[0].type) == "asyncio.CancelledError" and not tr.handlers[0].name
+                      and [src(b) for b in tr.handlers[0].body] == ["continue"] and not tr.orelse and not tr.finalbody)
+            if not ok:
+                raise TranslationError("unsupported body of _close_runners")
+            return "SShieldAclose"
         if t == "awaitasyncio.gather(*runner_tasks,return_exceptions=True)":
             return "SAwaitTasks"
         if isinstance(x, ast.Try) and ctx == "manage":
@@ -282,7 +297,8 @@ def gen_registry(repo):
         fn = find_function(tree, name, cls="MetaRunner")
         progs.append("Definition ir_%s : list rstmt :=\n  %s." % (ctx, block(fn.body, ctx)))
     # the registry must not be touched anywhere else in the class (stop() and run_payload only read it)
-    allowed = {"register_payload", "_manage_runners", "_launch_runners", "_unqueue_payloads", "_aclose_runners", "__init__"}
+    allowed = {"register_payload", "_manage_runners", "_launch_runners", "_unqueue_payloads", "_aclose_runners", "_close_runners",
+               "__init__"}
     for n in ast.walk(tree):
         if isinstance(n, (ast.FunctionDef, ast.AsyncFunctionDef)) and n.name not in allowed:
             for m in ast.walk(n):
